@@ -48,4 +48,5 @@ func runC08(c *ev.Ctx) {
 	bfs(c, "C08", start, c08Alphabet(), c.Sz(3, 4), c.Sz(6000, 200000), 4, true)
 	c04Random(c, "C08", c.Sz(200, 5000), 2, true)
 	c08Concurrent(c)
+	c08CreateVsRename(c)
 }
